@@ -72,6 +72,13 @@ class RefVT:
         s.top, s.bot = 0, h - 1
         s.sb, s.sb_known = [], True
         s.replies = []
+        s.origin = False                  # DECOM: lines are addressed from the top margin, the cursor stays inside the margins
+
+    def line(s, r):
+        """row reached by addressing line r >= 1 (CUP / VPA)"""
+        if s.origin:
+            return min(s.top + r - 1, s.bot)
+        return min(r, s.h) - 1
 
     def blank_row(s):
         return [(32, ANY)] * s.w
@@ -107,10 +114,10 @@ class RefVT:
             return s.pending
         if k == "so":
             return s.cs[1] < 0            # power-up G1 differs between terminals
-        if k == "cuu":
-            return partial and s.top <= s.y and s.y - s.one(c[1]) < s.top
+        if k == "cuu":       # in origin mode the cursor is inside the margins and stops at them on every terminal
+            return (not s.origin) and partial and s.top <= s.y and s.y - s.one(c[1]) < s.top
         if k == "cud":
-            return partial and s.y <= s.bot and s.bot < s.y + s.one(c[1])
+            return (not s.origin) and partial and s.y <= s.bot and s.bot < s.y + s.one(c[1])
         return False
 
     def do(s, c):
@@ -143,8 +150,15 @@ class RefVT:
             if s.x > 0:
                 s.x -= 1
         elif k == "cup":
-            s.y = min(one(c[1]), s.h) - 1
+            s.y = s.line(one(c[1]))
             s.x = min(one(c[2]), s.w) - 1
+            s.unpend(k)
+        elif k == "vpa":
+            s.y = s.line(one(c[1]))
+            s.unpend(k)
+        elif k == "decom":
+            s.origin = bool(c[1])
+            s.x, s.y = 0, (s.top if s.origin else 0)        # to the new home position
             s.unpend(k)
         elif k == "cuu":
             s.y = max(s.top if s.y >= s.top else 0, s.y - one(c[1]))
@@ -199,7 +213,7 @@ class RefVT:
             b = s.h if c[2] <= 0 else c[2]
             if t < b <= s.h:
                 s.top, s.bot = t - 1, b - 1
-                s.x = s.y = 0
+                s.x, s.y = 0, (s.top if s.origin else 0)    # home: the origin
                 s.unpend(k)
         elif k == "sgr":
             # colours: n < 256 palette index, 256 + rgb direct colour
@@ -261,15 +275,16 @@ class RefVT:
             if c[1] == 5:
                 s.replies.append("\x1b[0n")
             elif c[1] == 6:
-                s.replies.append("\x1b[%d;%dR" % (s.y + 1, s.x + 1))
+                s.replies.append("\x1b[%d;%dR" % ((s.y - s.top if s.origin else s.y) + 1, s.x + 1))
         else:
             raise core.MachineryError("unknown reference command " + str(k))
 
 
 CMD_CODE = {"ch": 1, "cr": 2, "lf": 3, "bs": 4, "ri": 5, "cup": 6, "cuu": 7, "cud": 8, "cuf": 9, "cub": 10, "el": 11,
-            "ed": 12, "ich": 13, "dch": 14, "il": 15, "dl": 16, "stbm": 17, "sgr": 18, "dsr": 19, "ht": 20, "so": 21, "si": 22, "desig": 23}
+            "ed": 12, "ich": 13, "dch": 14, "il": 15, "dl": 16, "stbm": 17, "sgr": 18, "dsr": 19, "ht": 20, "so": 21, "si": 22, "desig": 23,
+            "vpa": 24, "decom": 25}
 CSI_FINAL = {"cup": b"H", "cuu": b"A", "cud": b"B", "cuf": b"C", "cub": b"D", "el": b"K", "ed": b"J", "ich": b"@",
-             "dch": b"P", "il": b"L", "dl": b"M", "stbm": b"r", "sgr": b"m", "dsr": b"n"}
+             "dch": b"P", "il": b"L", "dl": b"M", "stbm": b"r", "sgr": b"m", "dsr": b"n", "vpa": b"d"}
 
 
 def enc_cmd(c):
@@ -281,6 +296,8 @@ def enc_cmd(c):
         return {"cr": b"\r", "lf": b"\n", "bs": b"\b", "ri": b"\x1bM", "ht": b"\t", "so": b"\x0e", "si": b"\x0f"}[k]
     if k == "desig":
         return b"\x1b" + (b"(" if c[1] == 0 else b")") + bytes([c[2]])
+    if k == "decom":
+        return b"\x1b[?6h" if c[1] else b"\x1b[?6l"
     ps = c[1] if k == "sgr" else c[1:]
     out = b"\x1b[" + b";".join(b"" if n < 0 else str(n).encode() for n in ps) + CSI_FINAL[k]
     if k in ("il", "dl"):
@@ -655,8 +672,9 @@ class C15(core.Check):
                     kd, ra_, rb_ = rd.n(), rd.n(), rd.n()
                     replies.append("\x1b[0n" if kd == 5 else "\x1b[%d;%dR" % (ra_, rb_))
                 csst = [rd.n(), rd.n(), rd.n()]
+                origin = rd.n()
                 self._ref_stash = {"key": core.h(case), "n": n, "g": g, "x": x, "y": y, "pend": pend, "top": top, "bot": bot,
-                                   "attr": attr, "sb": sb, "known": known, "replies": replies, "cs": csst}
+                                   "attr": attr, "sb": sb, "known": known, "replies": replies, "cs": csst, "origin": origin}
             return {"steps": steps, "final": f, "chunk_same": True}
         except IndexError:
             return {"malformed": ints[:30]}
@@ -769,6 +787,8 @@ class C15(core.Check):
             return f"cursor at {final['cur']}, the reference has {[r.x, r.y]}"
         if final["region"] != [r.top, r.bot]:
             return f"scrolling region {final['region']}, the reference has {[r.top, r.bot]}"
+        if bool(final["modes"][5]) != r.origin:
+            return f"origin mode {bool(final['modes'][5])}, the reference has {r.origin}"
         return None
 
     def _oracle_ref(self, case, res):
@@ -785,8 +805,9 @@ class C15(core.Check):
         # the extracted Coq reference must tell the same story as this one
         st = self._ref_stash
         if st and st.get("key") == core.h(case):
-            mine = [n, r.g, r.x, r.y, int(r.pending), r.top, r.bot, r.sb, int(r.sb_known), r.replies, r.cs]
-            coq = [st["n"], st["g"], st["x"], st["y"], st["pend"], st["top"], st["bot"], st["sb"], st["known"], st["replies"], st["cs"]]
+            mine = [n, r.g, r.x, r.y, int(r.pending), r.top, r.bot, r.sb, int(r.sb_known), r.replies, r.cs, int(r.origin)]
+            coq = [st["n"], st["g"], st["x"], st["y"], st["pend"], st["top"], st["bot"], st["sb"], st["known"], st["replies"], st["cs"],
+                   st["origin"]]
             if core.canon(mine) != core.canon(coq):
                 msgs.append("reference models disagree: Model/VT100Ref.v (extracted) and the Python reference VT100")
             self._ref_stash = {}
@@ -832,16 +853,18 @@ class C15(core.Check):
             for i, c in enumerate(cmds):
                 if c[0] == "sgr" and len(c[1]) >= 3 and c[1][-1] == 0 and (38 in c[1] or 48 in c[1]):
                     sgr_zero = True
-                before = (r.pending, r.x, r.y, r.top, r.bot, r.cleared_by)
+                before = (r.pending, r.x, r.y, r.top, r.bot, r.cleared_by, r.origin)
                 r.do(c)
                 t.addstr(enc_cmd(c))
                 d = self._ref_full_diff({"term": rows_obs(t.term), "cur": list(t.term_cursor),
                                          "region": [t.scrollregion_start, t.scrollregion_end],
+                                         "modes": [0, 0, 0, 0, 0, int(t.modes.constrain_scrolling)],
                                          "events": wd.events, "sb": rows_obs(t.scrollback_buffer)}, r)
                 if d is not None:
-                    pend, x, y, top, bot, cleared = before
+                    pend, x, y, top, bot, cleared, origin = before
                     aspect = ("scrollback" if "scrollback" in d else "replies" if d.startswith("replies") else
-                              "cursor" if d.startswith("cursor") else "region" if d.startswith("scrolling") else "screen")
+                              "cursor" if d.startswith("cursor") else "region" if d.startswith("scrolling") else
+                              "origin" if d.startswith("origin") else "screen")
                     k = c[0] + (str(max(c[1], 0)) if c[0] in ("ed", "el") else "")
                     ctx = []
                     if pend:
@@ -850,6 +873,8 @@ class C15(core.Check):
                         ctx.append("pending wrap cleared by " + cleared)
                     if not top <= y <= bot:
                         ctx.append("cursor outside the scrolling region")
+                    if origin:
+                        ctx.append("origin mode")
                     if sgr_zero and "rendition" in d:
                         ctx.append("after an SGR colour sequence whose last component is 0")
                     return f"vt100[{k}/{aspect}]: after command #{i} {c}" + (" (" + ", ".join(ctx) + ")" if ctx else "") + " " + d
@@ -968,6 +993,8 @@ class C15(core.Check):
                 inc("coloured_cells")
             if f["region"] != [0, f["size"][1] - 1]:
                 inc("partial_region_at_end")
+                if f["modes"][5]:
+                    inc("origin_mode_in_partial_region_at_end")
 
     # ---------- generators ----------
     FINALS = list(b"@ABCDEFGHJKLMPXacdefghlmnqrsu`")
@@ -1075,9 +1102,19 @@ class C15(core.Check):
 
         def P():
             return rng.choice([-1, 0, 1, 1, 2, 3, w - 1, w, w + 1, h, h + 1, 9999])
+        if h >= 2 and rng.random() < 0.25:
+            # a session of a full-screen program that confines itself to a window: margins + origin mode
+            t_ = rng.randint(1, h - 1)
+            for c in (["stbm", t_, rng.randint(t_ + 1, h)], ["decom", 1]):
+                r.do(c)
+                cmds.append(c)
         for _ in range(n or rng.randint(1, 30)):
-            k = rng.randrange(17)
-            if k < 5:
+            k = rng.randrange(19)
+            if k == 17:
+                c = ["decom", rng.choice([1, 1, 0])]
+            elif k == 18:
+                c = ["vpa", P()]
+            elif k < 5:
                 c = ["ch", rng.choice(b"abcXYZ~ ")]
             elif k == 5:
                 c = [rng.choice(["cr", "lf", "lf", "bs", "ri"])]
@@ -1191,12 +1228,13 @@ C15.level_text = (
     "feeding it whole anywhere in a session.  scrollback_in_order(_scroll) and scrolled_back_view: a scroll appends "
     "exactly the departing top line, the scrollback only grows at its end, the scrolled-back view shows rows "
     "[len-k, len-k+height) of scrollback ++ screen.  vterm_refines_vt100 (THEOREM): for any command list over printable "
-    "text with autowrap, CR LF BS HT, CUP CUU CUD CUF CUB, EL ED, ICH DCH IL DL, DECSTBM, RI, SGR (classic values and the "
+    "text with autowrap, CR LF BS HT, CUP VPA CUU CUD CUF CUB, EL ED, ICH DCH IL DL, DECSTBM, origin mode (DECOM: lines "
+    "addressed from the top margin, cursor kept inside the margins, CPR relative, ED/EL not confined), RI, SGR (classic values and the "
     "38;5;n / 48;5;n palette and 38;2;r;g;b / 48;2;r;g;b direct colour forms in any mixture, each cell judged at the colour "
     "depth its AttrSpec was pushed to), DSR and the "
     "character sets (SO/SI, ESC ( 0/B, ESC ) 0/B), any size, parameters below 2^4000, the emulator model fed with the "
     "byte encoding ends with screen contents (characters, renditions, character set of every cell), cursor and scrolling "
-    "region equal to the independent reference VT100, its replies are exactly the reference's (DSR 5 / cursor position), "
+    "region and origin mode equal to the independent reference VT100, its replies are exactly the reference's (DSR 5 / cursor position), "
     "and the scrollback holds exactly the lines that left the top of the reference's screen, in order (parser lemma on "
     "the decimal encoding + one simulation lemma per command + induction).  Corollaries: any_csi_is_survived, "
     "cut_anywhere (UTF-8 / escape state independent of chunk boundaries), scrolled_view_cursor_inside.  ORACLE / "
